@@ -138,4 +138,59 @@ theorem shutdown_calls_length (s : St) : (shutdown s).calls.length = s.calls.len
   cases s.rcancel <;> cases s.rel <;> cases hres : s.resolved <;> simp [hres] <;>
     (repeat' split) <;> simp
 
+
+/-! ## the invariant -/
+
+/-- projection to the hand-over chain of `Core/Chain.lean`: slot = the RefCount, `last = waitCh` -/
+def chainSlot (s : St) : Chain.Slot := { insts := s.calls.map (·.ci), last := s.waitCh }
+
+/-- the part of the invariant that does not mention the context or the reference count; it is kept
+by the intermediate states inside a critical section -/
+structure Core (s : St) : Prop where
+  pre      : s.cfgd = false → s.th = [] ∧ s.calls = []
+  chain    : Chain.Inv (chainSlot s)
+  nonceLe  : ∀ i c, s.calls[i]? = some c → c.nonce ≤ s.nonce
+  nonceLt  : ∀ i j ci cj, s.calls[i]? = some ci → s.calls[j]? = some cj → i < j → ci.nonce < cj.nonce
+  lastCh   : ∀ l, s.waitCh = some l ↔ l + 1 = s.calls.length
+  resCur   : s.resolved = s.cur.isSome
+  curSome  : ∀ i, s.cur = some i → ∃ c h, s.calls[i]? = some c ∧ c.nonce = s.nonce ∧ c.stored = true ∧
+               c.fin = true ∧ c.res = some (s.value, h, s.verr) ∧ s.rel = (if h then some i else none) ∧
+               (h = true → c.released = false)
+  curNone  : s.cur = none → s.rel = none ∧ s.value = 0 ∧ s.verr = 0
+  tgtVal   : s.target = if s.tgt ∧ s.verr = 0 then s.value else 0
+  tgtErr   : s.targetErr = if s.tgt then s.verr else 0
+  relFin   : ∀ i c, s.calls[i]? = some c → c.released = true → c.fin = true ∧ ∃ v e, c.res = some (v, true, e)
+  storedFin : ∀ i c, s.calls[i]? = some c → c.stored = true → c.fin = true ∧ c.res.isSome
+  noLeak   : ∀ i c v e, s.calls[i]? = some c → c.fin = true → c.res = some (v, true, e) →
+               c.released = false → s.rel = some i
+  finSt    : ∀ i c, s.calls[i]? = some c →
+               (c.fin = true → c.ci.st = .returned ∨ c.ci.st = .closed) ∧ (c.ci.st = .closed → c.fin = true)
+  resSt    : ∀ i c, s.calls[i]? = some c → c.res.isSome → c.ci.st = .returned ∨ c.ci.st = .closed
+  told     : ∀ a k pc f sf t, s.th[a]? = some (.ref k pc true f sf t) → k ≠ .nil → t = s.cur
+  rcFresh  : ∀ i, s.rcancel = some i → ∃ c, s.calls[i]? = some c ∧ c.nonce = s.nonce
+  panicF   : s.panic = false
+  pendNE   : ∀ b ∈ s.pend, b ≠ []
+  deadC    : ∀ i c, s.calls[i]? = some c → s.dead.contains c.root = true → c.ci.cancelled = true
+
+/-- the part that ties the current resolver call to the context and the reference count -/
+structure Live (s : St) : Prop where
+  fresh : ∀ i c, s.calls[i]? = some c → c.nonce = s.nonce →
+            c.root = s.ctx ∧ s.ctx ≠ 0 ∧ s.rcancel = some i ∧
+            (c.ci.cancelled = true → s.dead.contains s.ctx = true) ∧
+            (c.fin = false → 0 < liveRefs s) ∧ (c.fin = true → c.res.isSome → s.cur = some i)
+  prog  : s.ctx ≠ 0 → 0 < liveRefs s →
+            s.resolved = true ∨ ∃ i c, s.calls[i]? = some c ∧ c.nonce = s.nonce
+  kept  : s.resolved = true → (0 < liveRefs s ∨ (s.keep = true ∧ s.verr = 0)) ∧ s.ctx ≠ 0
+
+structure Inv (s : St) : Prop where
+  core : Core s
+  live : Live s
+
+theorem init_inv : Inv ({} : St) := by
+  refine ⟨⟨?_, ?_, ?_, ?_, ?_, ?_, ?_, ?_, ?_, ?_, ?_, ?_, ?_, ?_, ?_, ?_, ?_, ?_, ?_, ?_⟩, ⟨?_, ?_, ?_⟩⟩
+  all_goals (try (intros; simp_all; done))
+  · exact Chain.init_inv
+  · intro l; simp; omega
+  · simp [liveRefs]
+
 end UtilModel.RefCount
